@@ -17,17 +17,17 @@ P = {
  "C03": ("Lean 4 proof (keys present, fingerprint is a function of sorted reported keys/values) + correspondence + restrict-and-re-evaluate oracle under several PYTHONHASHSEEDs",
          "keys_present_only / fingerprint_defined are proved for the whole interpreter (every expression, options, state: each reported key is present in the caller's dictionary, also below pre-set/default-option wrappers and Map assignments; AllOptions excepted), with fingerprint_agree / fingerprint_injective on the model's keys()/fingerprint for all programs; implementation oracle restricts options to keys() with an independent restrict, re-evaluates, perturbs inside/outside the reported keys and checks the fingerprint bytes against the independent expectation, in processes with different hash seeds. Sufficiency is false for effects reading options (F9), catch positions (F18/F19) and brace re-substitution (F22): listed known findings. The read log of the model is tied to the library's dotted lookups (facet reads). application_keys_cover_function: what the expression in the FUNCTION slot of an application reports is part of the application's keys. Directed families: Maps whose iterated key is a prefix / section of the key read, cached namespaces, function-slot expressions, dataset classes."),
  "C04": ("Lean 4 proof (Option resolution case analysis, set/get on dotted paths) + correspondence + independent dotted-lookup oracle",
-         "Theorems about optionOp / walk / setPath / mix for all keys, values and dictionaries; implementation compared with an independent lookup over the key x value x default x domain universe and with fully-qualified Options for namespaces; scalar-prefix keys (F10) and index segments in Option.set (F17) are listed known findings."),
+         "Theorems about optionOp / walk / setPath / mix for all keys, values and dictionaries; implementation compared with an independent lookup over the key x value x default x domain universe and with fully-qualified Options for namespaces; scalar-prefix keys (F10) and index segments in Option.set (F17) are listed known findings. The layer-0 tie runs here: the model's getDotted / setPath / pyStr / pyEq against confectioner's get_dotted_key / set_dotted_key and Python's str / == on a systematic key x dictionary universe (key segments of every integer-literal shape: negative indices, sign, underscores, white space)."),
  "C05": ("Lean 4 proof (per-combinator semantic equations of the interpreter model) + exhaustive small trees and random trees against the model as eager reference",
          "The model's evaluate IS the eager reference semantics; theorems state each combinator's equation for all sub-expressions; the implementation must return the model's value (or fail iff the model fails) on exhaustive 3-leaf trees per combinator and random DAGs. Directed families: equal-hash value sequences, lifted falsy keywords, constants that are only shallowly immutable at every wrapping position with consumers editing them in place, ONE expression object bound to several parameters, dataset classes, interfaces."),
  "C06": ("Lean 4 proof (construction has no access to user code; trace equations) + ordered execution-trace correspondence",
          "Construction purity is structural in the model; evaluation order/selection is decided by comparing the ordered log of every user callable on the real code with the model's trace for random graphs (correspondence = oracle here). Directed families: namespaces with dataset defaults, construction steps (with_options / register / add_effect) reporting the user code they ran, dispatch Options whose domain is a dataset, dataset classes that redefine inherited members, interfaces."),
  "C07": ("Lean 4 proof over register/overload/set_dispatch/implementation histories (InterfaceSM) + correspondence + fresh-evaluation oracle",
-         "Invariant-based theorems over all histories of a state machine of Overloaded/Dataset/Interface; tied to the code by generated public-API programs. set_dispatch on a warm cache (F24) is a listed known finding. Directed families: every built-in Exception subclass (RecursionError and MemoryError included, raised and genuinely produced) at every position where a dispatch value is computed; dispatch values whose text coincides (1 / '1', True / 'True', None / 'None') on one cache."),
+         "Invariant-based theorems over all histories of a state machine of Overloaded/Dataset/Interface; tied to the code by generated public-API programs. set_dispatch on a warm cache (F24) is a listed known finding. Directed families: every built-in Exception subclass (RecursionError and MemoryError included, raised and genuinely produced) at every position where a dispatch value is computed; dispatch values whose text coincides (1 / '1', True / 'True', None / 'None') on one cache. Every dataset of the programs is built through one of 60 public factory spellings / keyword combinations (chosen by its number), with is_abstract / default / cache checked as declared."),
  "C08": ("Lean 4 proof (overlay equations, mix lookup algebra) + correspondence + independent-overlay oracle + input snapshots",
-         "Theorems: WithOptions/WithDefaultOptions/dataset options evaluate the inner expression under mix; mix lookup lemmas for nested sections. Non-mutation of inputs cannot be a theorem about an immutable model: it is decided by deep snapshots around every operation (correspondence level for that clause). Directed families: derived-dataset chains, bodies and AllOptions consumers editing what they receive, a kept WithOptions object used with one dictionary object edited in place (compared with a fresh dictionary of equal contents), datasets reading a section and a key inside it."),
+         "Theorems: WithOptions/WithDefaultOptions/dataset options evaluate the inner expression under mix; mix lookup lemmas for nested sections. Non-mutation of inputs cannot be a theorem about an immutable model: it is decided by deep snapshots around every operation (correspondence level for that clause). Directed families: derived-dataset chains, bodies and AllOptions consumers editing what they receive, a kept WithOptions object used with one dictionary object edited in place (compared with a fresh dictionary of equal contents), datasets reading a section and a key inside it. The layer-0 tie of the model's mix against confectioner.mix runs here."),
  "C09": ("Lean 4 proof (template scanner/resolve properties, read log) + correspondence + independent substitution oracle recording reads",
-         "Theorems about findKeys/resolveR (reads are logged, keys cover reads for templates built from plain keys); implementation compared with an independent substitution over the template atom alphabet; re-substitution of brace-containing text (F22) and option values referring to template parameters (F26) are listed known findings. Directed families: the whole identifier alphabet for {:name:} parameters and parameter look-alikes; wrappers used with one dictionary object edited in place."),
+         "Theorems about findKeys/resolveR (reads are logged, keys cover reads for templates built from plain keys); implementation compared with an independent substitution over the template atom alphabet; re-substitution of brace-containing text (F22) and option values referring to template parameters (F26) are listed known findings. Directed families: the whole identifier alphabet for {:name:} parameters and parameter look-alikes; wrappers used with one dictionary object edited in place. The layer-0 tie of findKeys / resolveR against confectioner's find_template_keys / resolve runs here; integer-literal key segments (negative list indices) in templates, templated values and Option keys."),
  "C10": ("Lean 4 proof (validate success excludes missing-option failure for Option/Template fragment) + correspondence + validate/keys/evaluate agreement oracle cold and warm",
          "Agreement is checked on the real code for random graphs with total callables (and a stream with raising bodies for the weaker clause); theorems cover the model fragment stated in LabreaProps/C10.lean; F9/F20/F21/F22/F26 are listed known findings."),
  "C11": ("Lean 4 proof (explain/keys inclusion on the fragment) + correspondence + explain/keys/validate relations on every sub-dictionary chain",
@@ -35,7 +35,7 @@ P = {
  "C12": ("Lean 4 proof (every evaluate failure is an EvaluationError whose source is the evaluated node: wrapEvaluate) + correspondence on full cause chains + failure-history oracle",
          "error_source is proved for every program/dictionary/state; cause chains are compared frame by frame with the model under scripted faults; failed evaluations are followed by cache-off twins and by a no-store check on the failing object's cache. Directed families: every built-in Exception subclass x every position where the library calls user code (body, callback, effect, predicate, step, applied function, dispatch body, bind continuation, coalesce member, argument), in every run; unmatched switches over mutually unorderable keys; user-defined Evaluatable subclasses (operations from the class body, a plain mixin, a user-defined base)."),
  "C13": ("Lean 4 proof (linked-list pipeline algebra; generated helper table = hand-written spec by decide) + correspondence + symbolic-operand oracle",
-         "Structural-induction theorems for + / transform / iter / keys; functions.py is translated on every run into a Lean table re-checked against the documented operand order. Directed family: steps whose bodies edit their constant parameters in place (ten public spellings, containers to depth 4, a step used several times), with the written default compared at every body entry."),
+         "Structural-induction theorems for + / transform / iter / keys; functions.py is translated on every run into a Lean table re-checked against the documented operand order. Directed family: steps whose bodies edit their constant parameters in place (ten public spellings, containers to depth 4, a step used several times), with the written default compared at every body entry. Every helper of labrea.functions is also run on 41 kinds of container operands (Counter, defaultdict, ChainMap, mappingproxy, UserDict, deque, one-shot iterators, protocol-only classes, ...) against its documented Python equivalent computed independently."),
  "C14": ("Lean 4 proof (block-tree induction over the runtime state machine, refinement to a per-thread stack) + correspondence on well-nested histories",
          "block_restores / served_by_top / derive_pure proved for all histories of the RuntimeSM model of runtime.py; tied by random histories on the real module in fresh threads."),
  "C15": ("Lean 4 proof (induction over interleavings of atomic steps) + deterministic scheduler driving real threads at op/line/opcode granularity",
@@ -45,9 +45,9 @@ P = {
  "C17": ("Lean 4 proof (scripted-backend model) + correspondence with a scripted Cache subclass + exhaustive fault scripts on the first N backend calls",
          "faulty_backend_transparent / faulty_backend_total: for every history and EVERY fault script (the script is part of the state) a node cached in the faulty backend terminates with its uncached outcome, provided equal fingerprints imply equal outcomes; unconditional for a real dataset family (dataset_faulty_backend_transparent). The model's scripted cache mirrors a contract-following faulty backend; every evaluation under every fault script must equal its cache-off twin (exhaustive for N=4/6 on a dataset chain and on a coalesce member, random beyond; fault kinds: miss, lie-exists, fail-get, forget, and a backend that answers without fingerprinting). Backends driven: scripted Cache subclass (every second one raising a CacheGetFailure subclass on behalf of an inner tier; every third one a fault-injecting front over a real MemoryCache), a get/set-only backend, one dictionary object edited in place between calls."),
  "C18": ("Lean 4 proof (hook_total over subclass chains, decide over the generated class table; request events in ev) + reflection + recording pass-through handlers + substitution oracle",
-         "Class-creation hooks proved for all chains and instantiated for every class of the package (table regenerated from source); request logs of real evaluations compared with the model's; substitution compared with the model's Env.subst."),
+         "Class-creation hooks proved for all chains and instantiated for every class of the package (table regenerated from source); request logs of real evaluations compared with the model's; substitution compared with the model's Env.subst. A directed family of 106 user-defined node-class shapes (operations from the class body, plain mixins before / after the labrea base, user-defined parents, overrides, subclasses of built-in nodes) is recorded and substituted alone, in datasets and inside the combinators."),
  "C19": ("Lean 4 proof (restrict fold over sorted keys; equality iff restricted options equal) + correspondence + independent restrict oracle + input snapshots",
-         "repr_options_lookup / eq_iff_restricted proved for any key set and nesting; tied by generated dataset classes."),
+         "repr_options_lookup / eq_iff_restricted proved for any key set and nesting; tied by generated dataset classes. Histories over families of related dataset classes (base, derived adding / redefining members, two levels, siblings) with fresh, reused and edited dictionaries, each step compared with the same step on a freshly built family."),
  "C20": ("Lean 4 proof (encode/decode round trip of an object-graph state algebra) + in-process and fresh-interpreter pickle round trips on all protocols",
          "state_roundtrip proved for the abstraction of pickle (partial: CPython pickle itself is modelled); behaviour compared before/after on generated explicit-form graphs; decorator-form datasets (F12) are a listed known finding. A directed family pickles every public wrapper / combinator class alone and stored inside a dataset (coverage table per labrea class in the evidence); Option.namespace objects and Map(...).values were found unpicklable and repaired in /repo (0fa780d, cf8d95e); interface members built from generated local functions (F28) are a listed known finding."),
 }
